@@ -246,15 +246,19 @@ def gov_equal(d: Any, g: Any) -> bool:
     return d is g or (isinstance(d, XsdElement) and g is not None and d.name == g.name and d.type is g.type)
 
 
-def errors_as(eg: Any, elem: Any, xsd_element: Any, namespaces: Any) -> list:
+def errors_as(eg: Any, elem: Any, xsd_element: Any, namespaces: Any, ancestors: Optional[list] = None) -> list:
     """(path, error) of the path-driven loop for one selected element validated against `xsd_element`
     (schemas.py:1364-1385 as it is now: context at level 1 on the document, the element's own declarations
-    pushed, XsdElement.raw_decode); fresh context: no document-wide tables"""
+    pushed, XsdElement.raw_decode); fresh context: no document-wide tables.
+    `ancestors` (elements strictly between the root and `elem`): their declarations are pushed first, at lower
+    levels - what notes/fixes/C20-path-ancestors-xmlns.patch makes the loop do."""
     from xmlschema.namespaces import NamespaceMapper
     from xmlschema.validators.validation import ValidationContext
     from xmlschema.validators.exceptions import XMLSchemaStopValidation
     context = ValidationContext(source=eg.res, converter=NamespaceMapper(namespaces, source=eg.res), level=1,
                                 check_identities=True, use_defaults=True)
+    for k, e in enumerate(ancestors or [], 1 - len(ancestors or [])):
+        context.converter.set_xmlns_context(e, k)
     context.converter.set_xmlns_context(elem, context.level)
     try:
         xsd_element.raw_decode(elem, 'lax', context)
@@ -560,6 +564,7 @@ class Partial:
         # what the current code does when the declaration found by the path is not the governing one
         lk = self.lookups(path, nsx, selected)
         pred: list = []
+        pred2: list = []
         reasons: list = []
         deviating: list = []
         for s_ in selected:
@@ -567,6 +572,7 @@ class Partial:
             g = eg.gov.get(s_)
             if not isinstance(d, Exception) and g is not None and gov_equal(d, g):
                 pred.extend(truth_part(eg, [s_]))
+                pred2.extend(truth_part(eg, [s_]))
                 continue
             deviating.append(s_)
             if g is None or not doc.all_plain(s_) or (has_pos and self.pred_wild(s_)):
@@ -583,9 +589,14 @@ class Partial:
                 d = self.schema.builders.create_element(eg.node[s_]['tag'], self.schema)
             try:
                 pred.extend((q, c, None) for q, c in errors_as(eg, eg.elem[s_], d, nsx))
+                anc = [eg.elem[i] for i in doc.chain(s_)[1:-1]]
+                pred2.extend((q, c, None) for q, c in errors_as(eg, eg.elem[s_], d, nsx, anc))
             except Exception:  # noqa
                 reasons[-1] = None
         as_pred = got_ns == non_stateful([c for _, c, _ in pred])
+        if not as_pred and got_ns == non_stateful([c for _, c, _ in pred2]):
+            as_pred = True          # the declarations of the intermediate ancestors are in scope (C20-F3 repaired)
+            pred = pred2
         detail = {'kind': 'partial', 'got': got_ns, 'want': non_stateful([c for _, c, _ in truth]),
                   'deviating_lookups': [(s_, repr(lk[s_])[:80], repr(eg.gov.get(s_))[:80]) for s_ in deviating][:6],
                   'reasons': reasons, 'as_predicted': as_pred,
@@ -681,6 +692,11 @@ class Partial:
         except Exception as ex:  # noqa
             ctx.failure('resource.iterfind raised on a generated path', case, repr(ex))
             return
+        if real != denoted and sorted(real) == denoted and len(set(real)) == len(real):
+            # the same elements, not in document order: `a//b` is evaluated context node by context node (the children
+            # of a node before those of its earlier descendants); the parts are then processed in that order
+            ctx.count('selection:same-set-other-order')
+            denoted = real
         if real != denoted:
             detail = {'kind': 'selection', 'real': real, 'denoted': denoted}
             fid = known_match(case, detail)
@@ -1284,7 +1300,7 @@ def run(ctx: Ctx, driver_ok: bool) -> None:
     if d.exists():
         for f in sorted(d.glob('*.json')):
             obj = json.loads(f.read_text())
-            run_one(ctx, drv, obj['xsd'], obj['xml'].encode())
+            run_one(ctx, drv, obj['xsd'], obj['xml'].encode(), only={'family': obj['family']} if obj.get('family') else None)
     twin_namespaces(ctx)
     subst_family(ctx, drv)
     family(ctx, drv)
